@@ -67,7 +67,7 @@ def run_lr(r, prop, n_quick=12, n_thorough=150, also=()):
     # derivation tree with the documented sugar values (parse_actions_postorder, sugar_values). An accepted
     # input on which the compiled parser logs other action calls is therefore a failing input of C03.
     proven = []
-    if prop == "C03" and mism and not mine:
+    if prop in ("C03", "C06") and mism and not mine:
         bad_pkgs = set()
         for (i, c, im, mo) in vfail:
             bad_pkgs.update(w for w in c.split() if w.startswith("$"))
@@ -85,7 +85,7 @@ def run_lr(r, prop, n_quick=12, n_thorough=150, also=()):
         for (i, c, im, mo, kind) in proven[:3]:
             r.violation("lrgen-actions-%d" % i, {
                 "kind": "property-violated-by-implementation",
-                "what": "C03: on an accepted sentence the compiled parser executes %s than the post-order of the derivation tree (the model's log, proved by parse_actions_postorder / sugar_values for tables that pass LR.check)" % kind,
+                "what": prop + ": on an accepted input the compiled parser executes %s than the post-order of the derivation tree (the model's log, proved by parse_actions_postorder / sugar_values for tables that pass LR.check)" % kind,
                 "implementation_output": im, "model_output": mo, "case_line": expand_lets(res["cases"], i)[:20000], "family": "lrgen", "seed": r.seed}, True)
     if (vfail or mism) and not mine and not proven:
         first = (vfail or mism)[0]
